@@ -27,6 +27,14 @@ def parseQItem (j : Json) : Option QItem := do
   else if k == "m" then some (.many (← (← asArr a[1]!).toList.mapM parsePair))
   else none
 
+/-- ritem = ["o", kind, idx] | ["m", [[kind, idx], ...]] -/
+def parseRItem (j : Json) : Option RItem := do
+  let a ← asArr j
+  let k ← asStr a[0]!
+  if k == "o" then some (.one (← asNat a[1]!) (← asNat a[2]!))
+  else if k == "m" then some (.many (← (← asArr a[1]!).toList.mapM parsePair))
+  else none
+
 /-- cap = ["one", T, isRoot] | ["view", [T...], stmts] | ["q", [T...], [qitem...], stmts] -/
 def parseCap (j : Json) : Option Cap := do
   let a ← asArr j
@@ -34,6 +42,9 @@ def parseCap (j : Json) : Option Cap := do
   if k == "one" then some (.one (← parseTree a[1]!) (← asBool a[2]!))
   else if k == "view" then some (.view (← parseTrees a[1]!) (← asBool a[2]!))
   else if k == "q" then some (.qlist (← parseTrees a[1]!) (← (← asArr a[2]!).toList.mapM parseQItem) (← asBool a[3]!))
+  else if k == "qv" then
+    some (.qlistV (← parseTrees a[1]!) (← (← asArr a[2]!).toList.mapM parsePair)
+      (← (← asArr a[3]!).toList.mapM parseRItem) (← asBool a[4]!))
   else none
 
 def parseEnv (j : Json) : Option Env := do
@@ -107,6 +118,13 @@ def dispatch (f : String) (j : Json) : Option Json :=
       let some q := (get j "q").bind (fun v => (asArr v).bind fun a => a.toList.mapM parseQItem)
         | return Json.mkObj [("err", "bad q")]
       return Json.mkObj [("first", ofOpt ofNat (edgeItem q false)), ("last", ofOpt ofNat (edgeItem q true))]
+  | "C18.edgev" => some <| Id.run do
+      let some q := (get j "q").bind (fun v => (asArr v).bind fun a => a.toList.mapM parseRItem)
+        | return Json.mkObj [("err", "bad q")]
+      let some order := (get j "order").bind (fun v => (asArr v).bind fun a => a.toList.mapM parsePair)
+        | return Json.mkObj [("err", "bad order")]
+      return Json.mkObj [("first", ofOpt ofNat (edgeItem (virtQ order q) false)),
+                         ("last", ofOpt ofNat (edgeItem (virtQ order q) true))]
   | _ => none
 
 end Pfst.Drv.C18
